@@ -226,7 +226,7 @@ func splitParams(s string) []string {
 			escaped = true
 		case s[i] == '"':
 			quoted = !quoted
-		case s[i] == ' ' && !quoted:
+		case (s[i] == ' ' || s[i] == '\t') && !quoted:
 			params = append(params, s[start:i])
 			start = i + 1
 		}
